@@ -176,8 +176,8 @@ def run_kani(work, crate, harnesses, jobs=8, harness_timeout=900, extra=None, lo
     """One cargo-kani invocation for several harnesses of one crate.
     harnesses: list of fully qualified names.  Per-harness output goes to files."""
     cmd = ['cargo', 'kani', '-p', crate, '-Z', 'function-contracts', '-Z', 'stubbing', '-Z', 'unstable-options',
-           '--harness-timeout', '%ds' % harness_timeout, '--exact', '-j', str(jobs), '--output-format', 'regular',
-           '--output-into-files', '--target-dir', os.path.join(work, 'target-kani')]
+           '--harness-timeout', '%ds' % harness_timeout, '-j', str(jobs), '--output-format', 'terse',
+           '--target-dir', os.path.join(work, 'target-kani')]
     for h in harnesses:
         cmd += ['--harness', h]
     if extra:
